@@ -86,6 +86,7 @@ def drv(text, spec, copy_mode=False, cut=None):
     return lib, oracle(spec)
 
 
+SAMEVALS = [False]   # tasks may switch this on: every field value is the same text, all fields on one line
 CUTS = []      # character offsets of the line feeds between the blocks of the document built last
 
 
@@ -113,6 +114,11 @@ def build(eng, shape):
             k = hole()
             fks = []
             for i in range(sh[1]):
+                if SAMEVALS[0]:
+                    lit(", ")
+                    fks.append(hole())
+                    lit(" = {v}")
+                    continue
                 lit((", ", ",\n  ", ",")[i % 3])      # the layout around a repeated key must not matter
                 fks.append(hole())
                 lit((" = {v%d}", "={v%d}", "\t=  {v%d}")[i % 3] % i)
@@ -200,7 +206,8 @@ def native_run(text, spec_native, copy_mode=False, cut=None):
     return all(bool(c) for c in conds), [type(b).__name__ for b in lib.blocks], exp
 
 
-def task(shape, label, copy_mode=False, cut_after=None):
+def task(shape, label, copy_mode=False, cut_after=None, samevals=False):
+    SAMEVALS[0] = samevals
     eng = Engine()
     rec = Recorder(eng)
     text, spec = build(eng, shape)
@@ -265,6 +272,12 @@ def main():
         chk.add_task(f"{i:03d}-{name}", task, shape=sh, label=name)
         # (copy-mode parse stacks are not part of this property: there previous_block is an equal-by-construction but
         #  untransformed copy of the first block - see DESIGN §7; aliasing in copy mode is C07's subject)
+    # repeated fields that are identical in value and line, too
+    same = [sh for sh in shapes if len(sh) == 2 and any(x[0] == "entry" and x[1] >= 2 for x in sh)]
+    chk.bounds["identical repeated fields"] = f"{len(same)} two-block shapes with every field written ', K = {{v}}' on one line"
+    for i, sh in enumerate(same):
+        name = "+".join(x[0][0] + (str(x[1]) if len(x) > 1 else "") for x in sh)
+        chk.add_task(f"same-{i:03d}-{name}", task, shape=sh, label=name, samevals=True)
     # the same documents cut in two and parsed into one library (parse_string(part2, library=lib))
     two = [sh for sh in shapes if len(sh) == 3 and sum(1 for x in sh if x[0] != "comment") >= 2 and all(x[0] != "entry" or x[1] <= 1 for x in sh)]
     chk.bounds["two documents, one library"] = f"{len(two)} three-block shapes (entries with 0..1 fields, @string, @comment) cut after the first and after the second block"
